@@ -507,7 +507,7 @@ func c05IDs(tier string, seed int64, idx int, c c05Case, res *core.Result) {
 		runtime.GOMAXPROCS(4) // two spinning starters plus the driver and the library's goroutines
 		defer runtime.GOMAXPROCS(prev)
 	}
-	for k := 0; k < 1500 && nconn == 1 && c.Topo == "" && len(res.Violations) == 0 && res.Verdict == core.Held; k++ {
+	for k := 0; k < 4000 && nconn == 1 && c.Topo == "" && len(res.Violations) == 0 && res.Verdict == core.Held; k++ {
 		var ready, goNow atomic.Int32
 		var wg sync.WaitGroup
 		errs := make([]error, 2)
@@ -783,7 +783,7 @@ func init() {
 	core.Register(&core.Prop{
 		ID:         "C05",
 		Level:      "exploration",
-		Rule:       "(perm) for each configuration of k<=3 (thorough also 4) outstanding calls with per-call scripts of 1 (unary) or 2..6 envelopes, EVERY order-preserving merge (multiset permutation) of the scripts is played on a fresh connection: by a scripted server against a real client (replies, headers, bodies, trailers, distinct statuses per call) and by a scripted client against a real server (requests, opens, bodies, half-closes); each call/handler must observe exactly its own script. (ids) histories of 1280 calls per connection (quick 8, thorough 80 connections), 64 callers released from a barrier per burst, unary and streams mixed, every 4th history through the proxy in bursts of 12, every 4th over two client connections served by one Server object, then 1500 pairs of one unary call and one stream open started at the same instant (spin barrier), a half-close arriving after the server finished the call, and calls whose write is reported failed although it was delivered: ids on the wire pairwise distinct, one id per call, every call sees only its own echo. (websocket) quick 6 / thorough 48 cases of 2..16 unary calls and 2..8 echo streams at once over the shipped websocket transport on loopback sockets with stalling writes, payloads 0..64 KiB: no call or stream sees foreign content (calls that merely fail are counted, not judged here; 30 s wall bound = inconclusive). distinct_nontrivial = interleavings enumerated (all distinct) + id histories. (refused) 4..10 concurrent unary calls on one connection, the request metadata of one of them damaged in transit (undecodable -bin value) so that the server refuses it on its own: the refusal reaches the call that owns its id (an error, not a hang) and every other call gets its own reply.",
+		Rule:       "(perm) for each configuration of k<=3 (thorough also 4) outstanding calls with per-call scripts of 1 (unary) or 2..6 envelopes, EVERY order-preserving merge (multiset permutation) of the scripts is played on a fresh connection: by a scripted server against a real client (replies, headers, bodies, trailers, distinct statuses per call) and by a scripted client against a real server (requests, opens, bodies, half-closes); each call/handler must observe exactly its own script. (ids) histories of 1280 calls per connection (quick 8, thorough 80 connections), 64 callers released from a barrier per burst, unary and streams mixed, every 4th history through the proxy in bursts of 12, every 4th over two client connections served by one Server object, then 4000 pairs of one unary call and one stream open started at the same instant (spin barrier), a half-close arriving after the server finished the call, and calls whose write is reported failed although it was delivered: ids on the wire pairwise distinct, one id per call, every call sees only its own echo. (websocket) quick 6 / thorough 48 cases of 2..16 unary calls and 2..8 echo streams at once over the shipped websocket transport on loopback sockets with stalling writes, payloads 0..64 KiB: no call or stream sees foreign content (calls that merely fail are counted, not judged here; 30 s wall bound = inconclusive). distinct_nontrivial = interleavings enumerated (all distinct) + id histories. (refused) 4..10 concurrent unary calls on one connection, the request metadata of one of them damaged in transit (undecodable -bin value) so that the server refuses it on its own: the refusal reaches the call that owns its id (an error, not a hang) and every other call gets its own reply.",
 		Plan:       func(tier string, seed int64) int { return len(c05List(tier)) },
 		Run:        c05Run,
 		Exhaustive: func(string) bool { return true },
